@@ -125,6 +125,7 @@ func (f *Interface) sendInsideEncrypt(hostinfo *HostInfo, ci *ConnectionState, s
 		ci.writeLock.Lock()
 	}
 	c := ci.messageCounter.Add(1)
+	verifPoint(verifSendAfterReserve)
 
 	out := header.Encode(scratch, header.Version, header.Message, 0, hostinfo.remoteIndexId, c)
 
@@ -459,6 +460,7 @@ func (f *Interface) prepareSendVia(via *HostInfo,
 		return nil, fmt.Errorf("tunnel message counter is exhausted")
 	}
 
+	verifPoint(verifSendAfterReserve)
 	out = header.Encode(out, header.Version, header.Message, header.MessageRelay, relay.RemoteIndex, c)
 	f.connectionManager.Out(via)
 
@@ -551,6 +553,7 @@ func (f *Interface) sendNoMetrics(t header.MessageType, st header.MessageSubType
 		return
 	}
 
+	verifPoint(verifSendAfterReserve)
 	//l.WithField("trace", string(debug.Stack())).Error("out Header ", &Header{Version, t, st, 0, hostinfo.remoteIndexId, c}, p)
 	out = header.Encode(out, header.Version, t, st, hostinfo.remoteIndexId, c)
 	f.connectionManager.Out(hostinfo)
